@@ -199,7 +199,17 @@ def run_case(case, tier):
                 if h is None:
                     continue
                 counts["reported_rows_compared"] = counts.get("reported_rows_compared", 0) + 1
-                da, d1 = obs.det_multiset(g), obs.det_multiset(h)
+                def rows(gr):
+                    # the average adds up determinants whose partner groups count as one group for the program:
+                    # protein partners with one label (the N-H and the C=O of a residue), hetero partners with one
+                    # label and residue number - never two different ions or ligand copies
+                    out_ = {}
+                    for t_, lst in gr["det"].items():
+                        for d_ in lst:
+                            kk = (t_, d_[1]) if d_[5][0] == "atom" else (t_, d_[1], d_[5][2])
+                            out_[kk] = out_.get(kk, 0.0) + d_[3]
+                    return out_
+                da, d1 = rows(g), rows(h)
                 bad = [kk for kk in set(da) | set(d1) if abs(da.get(kk, 0.0) - d1.get(kk, 0.0)) > 1e-9]
                 if bad:
                     viol.append({"cls": "reported-determinants-differ-from-the-conformation", "msg": "%s: reported determinant towards %r is %r, the only conformation has %r" % (
